@@ -23,6 +23,7 @@ _ops("C04", "SubAlign SelectSites InverseCoordinates InversePositions TrimSequen
             "Append Split Transpose DiffWithFirst ReplaceMatchChars")
 _ops("C05", "Translate TranslateByReference CodonAlign")
 _ops("C06", "ReverseComplement ReverseComplementSequences ToUpper ToLower Unalign")
+_ops("C16", "LongestORFObj")
 _ops("C12", "RemoveGapSites RemoveCharacterSites RemoveMajorityCharacterSites RemoveGapSeqs RemoveCharacterSeqs")
 _ops("C13", "Deduplicate Compress")
 _ops("C14", "MaxCharStats Consensus CharStats CharStatsSite CharStatsSeq UniqueCharacters Entropy NbVariableSites "
@@ -37,7 +38,7 @@ READ_ONLY = set("Clone CloneSeqBag Unalign Sample SampleSeqBag SubAlign SelectSi
                 "RefCoordinates RefSites Split Transpose MaxCharStats Consensus CharStats CharStatsSite CharStatsSeq "
                 "UniqueCharacters Entropy NbVariableSites InformativeSites AvgAllelesPerSite Pssm CountDifferences "
                 "NumGapsUnique NumMutationsUnique NumMutRef ListMutRef CountProfile ProfileOnly SiteConservation AlphabetInfo BuildBootstrap RandSubAlign Rarefy "
-                "DetectAlphabet Identical Query".split())
+                "DetectAlphabet Identical Query LongestORFObj".split())
 
 
 def attribute(op, conjunct):
@@ -118,8 +119,12 @@ def heap_account(v, trace, res):
             if c == "frame" and e.get("_alias_ops") and set(e["_alias_ops"]) <= LIST_MODEL_EDGES:
                 return {"C01"}
             if c == "frame" and e.get("_alias_ops"):
-                # the extraction that links the two objects did not deliver its own columns: also a matter of C04
-                return {"C19"} | ({"C04"} if any(op in OP_PROPS and "C04" in OP_PROPS[op] for op in e["_alias_ops"]) else set())
+                # the operation that links the two objects did not deliver a result of its own: also a matter of the
+                # properties that own that operation (extraction: C04; un-alignment: C06; ...)
+                own = set()
+                for op in e["_alias_ops"]:
+                    own |= {p for p in OP_PROPS.get(op, ()) if p in ("C04", "C05", "C06", "C13", "C14", "C16")}
+                return {"C19"} | own
             return attribute(e["op"], c)
         mine = [c for c in b["failing"] if v.prop in owners(c)]
         if not mine:
